@@ -30,6 +30,7 @@ def MAYBE(t):
 
 BLOB_P = ("blob", "P", (("x", INT), ("y", STR)))
 BLOB_Q = ("blob", "Q", (("p", BLOB_P), ("t", TUP(INT, FLOAT))))
+BLOB_R = ("blob", "R", (("ok", BOOL), ("n", INT), ("l", LIST(INT))))      # falsy field values: false, 0, []
 ENUM_E = ("enum", "E", (("A", INT), ("B", TUP(INT, STR)), ("C", None), ("D", BOOL)))
 DECLS = """P :: blob {
     x: int,
@@ -38,6 +39,11 @@ DECLS = """P :: blob {
 Q :: blob {
     p: P,
     t: (int, float),
+}
+R :: blob {
+    ok: bool,
+    n: int,
+    l: [int],
 }
 E :: enum
     A int,
@@ -75,7 +81,7 @@ def gen_type(r, depth, kinds=("int", "float", "str", "bool", "tuple", "list", "m
     if k == "maybe":
         return MAYBE(gen_type(r, depth - 1, kinds))
     if k == "blob":
-        return r.choice([BLOB_P, BLOB_Q])
+        return r.choice([BLOB_P, BLOB_Q, BLOB_R])
     return ENUM_E
 
 
